@@ -2,17 +2,14 @@
    Per-thread stores plus one process-wide store; a context manager is an (enter, exit) pair;
    programs are well-nested trees of scopes with observations, raises and handlers.
    The thread-local scope functions come from Gen/ScopeDefs.v (regenerated from the source);
-   class detouring, dynamic evaluation and on-demand deserialization types
-   are written by hand here and tied to the code by the correspondence check.  Definitions only. *)
+   class detouring is written by hand here and tied to the code by the correspondence check.  Definitions only. *)
 From Coq Require Import ZArith List Bool PeanoNat.
 Import ListNotations.
 From PG Require Import Common.Tr Model.ScopesBase Gen.ScopeDefs.
 
 (* --- state: the calling thread's store and the process-wide store --------------------------- *)
 Definition state := (store * store)%type.
-Definition g_dynamic_evaluate : tlkey := 0.     (* hyper/base.py: _global_dynamic_evaluate_fn *)
-Definition g_ondemand_types : tlkey := 1.       (* json_conversion.py: _TypeRegistry._ondemand_registry_stack *)
-Definition nglob : nat := 2.
+(* process-wide keys g_dynamic_evaluate, g_ondemand_types and nglob come from Gen/ScopeDefs.v *)
 Definition init_state : state := (empty_store nkeys, empty_store nglob).
 
 (* --- the managers --------------------------------------------------------------------------- *)
@@ -62,28 +59,22 @@ Definition detour_enter (maps : val) (l : store) : option (store * list val) :=
   end.
 Definition detour_exit (l : store) : store := tl_pop k_detour l.
 
-(* dynamic_evaluation.py: dynamic_evaluate.  Entering a per-thread scope while a process-wide function is
-   installed fails (AssertionError in base.set_dynamic_evaluate_fn); nothing has been changed then. *)
-Definition dyn_enter (fn : val) (s : state) : option (state * list val) :=
-  if negb (is_none (tl_get g_dynamic_evaluate v_none (snd s))) then None
-  else Some ((tl_set k_dynamic_evaluate fn (fst s), snd s),
-             [tl_has k_dynamic_evaluate (fst s); tl_get k_dynamic_evaluate v_none (fst s)]).
-Definition dyn_exit (saved : list val) (s : state) : state :=
-  match saved with
-  | [had; old] => if truthy had then (tl_set k_dynamic_evaluate old (fst s), snd s)
-                  else (tl_del k_dynamic_evaluate (fst s), snd s)
-  | _ => s
-  end.
-Definition dyng_enter (fn : val) (s : state) : option (state * list val) :=
-  Some ((fst s, tl_set g_dynamic_evaluate fn (snd s)), [tl_get g_dynamic_evaluate v_none (snd s)]).
-Definition dyng_exit (saved : list val) (s : state) : state :=
-  match saved with [old] => (fst s, tl_set g_dynamic_evaluate old (snd s)) | _ => s end.
+(* managers generated over both stores *)
+Definition lift2_enter (f : store -> store -> option (store * store * list val)) (s : state) : option (state * list val) :=
+  match f (fst s) (snd s) with Some (l, g, sv) => Some ((l, g), sv) | None => None end.
+Definition lift2_exit (f : store -> store -> store * store) (s : state) : state := f (fst s) (snd s).
 
-(* json_conversion.py: _TypeRegistry.load_types_for_deserialization (one process-wide stack) *)
-Definition loadtypes_enter (types : val) (s : state) : option (state * list val) :=
-  let top := tl_peek g_ondemand_types v_empty_dict (snd s) in
-  Some ((fst s, tl_push g_ondemand_types (py_update (py_copy top) types) (snd s)), []).
-Definition loadtypes_exit (s : state) : state := (fst s, tl_pop g_ondemand_types (snd s)).
+(* dynamic_evaluation.py: dynamic_evaluate(evaluate_fn, yield_value=None, exit_fn=None, per_thread) is generated.
+   Entering a per-thread scope while a process-wide function is installed fails (AssertionError in
+   base.set_dynamic_evaluate_fn); nothing has been changed then. *)
+Definition dyn_enter (per_thread : val) (fn : val) : state -> option (state * list val) :=
+  lift2_enter (dynamic_evaluate_enter fn v_none v_none per_thread).
+Definition dyn_exit (per_thread : val) (fn : val) (saved : list val) : state -> state :=
+  lift2_exit (dynamic_evaluate_exit fn v_none v_none per_thread saved).
+
+(* json_conversion.py: _TypeRegistry.load_types_for_deserialization (one process-wide stack), generated *)
+Definition loadtypes_enter (types : val) : state -> option (state * list val) := lift2_enter (load_types_enter types).
+Definition loadtypes_exit (types : val) (saved : list val) : state -> state := lift2_exit (load_types_exit types saved).
 
 Definition cm_enter (c : cm) (a : val) (s : state) : option (state * list val) :=
   match c with
@@ -99,8 +90,8 @@ Definition cm_enter (c : cm) (a : val) (s : state) : option (state * list val) :
   | CContextual => lift_enter (contextual_scope_enter a) s
   | CDetour | CApplyWrappers => lift_enter (detour_enter a) s
   | CTimeit => lift_enter (timeit_enter a) s
-  | CDynEval => dyn_enter a s
-  | CDynEvalGlobal => dyng_enter a s
+  | CDynEval => dyn_enter v_true a s
+  | CDynEvalGlobal => dyn_enter v_false a s
   | CLoadTypes => loadtypes_enter a s
   end.
 
@@ -118,9 +109,9 @@ Definition cm_exit (c : cm) (a : val) (sv : list val) (s : state) : state :=
   | CContextual => lift_exit (contextual_scope_exit a sv) s
   | CDetour | CApplyWrappers => lift_exit detour_exit s
   | CTimeit => lift_exit (timeit_exit a sv) s
-  | CDynEval => dyn_exit sv s
-  | CDynEvalGlobal => dyng_exit sv s
-  | CLoadTypes => loadtypes_exit s
+  | CDynEval => dyn_exit v_true a sv s
+  | CDynEvalGlobal => dyn_exit v_false a sv s
+  | CLoadTypes => loadtypes_exit a sv s
   end.
 
 (* --- the public getters ---------------------------------------------------------------------- *)
@@ -140,7 +131,7 @@ Definition observe (g : getter) (s : state) : val :=
   | GContextual => tl_get k_contextual v_empty_dict l
   | GDetour => tl_peek k_detour v_empty_dict l
   | GTimeit => tl_get k_timing v_none l
-  | GDynEval => tl_get k_dynamic_evaluate (tl_get g_dynamic_evaluate v_none (snd s)) l
+  | GDynEval => get_dynamic_evaluate_fn l (snd s)
   | GLoadTypes => tl_peek g_ondemand_types v_empty_dict (snd s)
   end.
 
